@@ -7,6 +7,14 @@ _PENDING = ["C01", "C02", "C03", "C04", "C05", "C06", "C07", "C08", "C09", "C10"
 RELAY_NOTE = "Trusted: Coq kernel; the Go harness (event abstraction: the harness records the credential descriptor, attribute presence/size and relay port it used), pion/stun encoding and MESSAGE-INTEGRITY, Go timers under testing/synctest. One listener/one allocation manager is modelled; TCP relay connections are C16's model."
 
 CHECKS = [
+    {"property_id": "C20",
+     "text": "Coq theorems for all 1 <= MinPort <= MaxPort <= 65535 and all random-source outputs (uint16 count = Max-Min+1 >= 1, picked port "
+             "in range), retry loop sound / fails clean / bounded by MaxRetries, advertised port is a bound port, requested port passed "
+             "through, and no sharing over all allocate/close histories given an OS that refuses bound ports; Model/PortRange.v run against "
+             "the three real generators with a scripted Rand and transport.Net over fill-and-drain histories, plus a real loopback probe.",
+     "note": "Trusted: Coq kernel, Go harness, scripted socket layer. The no-sharing theorem assumes bind refuses a bound port; for TCP "
+             "listeners SO_REUSEPORT makes that false on Linux - recorded as known finding (tag tcp-reuseport-share), shown on real sockets each run.",
+     "technique": "Coq proof (uint16 arithmetic, induction over the retry loop and over histories) + differential correspondence against the real generators"},
     {"property_id": "C01",
      "text": "Coq theorems on Model/Relay.v: send/ChannelData gates (state unchanged; nothing or exactly one datagram from the sender's own relay to the named peer with the same bytes, only with a permission/binding present), no other event emits toward a peer, inductive invariant over all histories and policies that no vetoed or wrong-family peer is ever installed, and that what is installed is unexpired; chk_C01 evaluated on the traces of the real server.",
      "note": RELAY_NOTE,
